@@ -51,6 +51,7 @@ def group_params(draw, njobs, max_est=6):
         "walltime": walltime,
         "nproc": nproc,
         "cpus": draw(st.integers(1, 4)),
+        "verbose": draw(st.sampled_from([False] * 9 + [True])),
     }
 
 
@@ -68,7 +69,8 @@ def scenarios(draw, min_jobs=1, max_jobs=12, max_groups=3, mode="hpc", hooks=Fal
         "poll": 1,
         "reports": draw(st.booleans()) if reports is None else reports,
         "dry_run": dry_run,
-        "dsub": True,
+        # --no-distributed-submitter: nodes do not run try-submit-jobs, the operator's commands drive the submission
+        "dsub": draw(st.sampled_from([True] * 9 + [False])) if mode == "hpc" else True,
         "mode": mode,
         "hooks": {"setup": False, "teardown": False, "node_setup": False, "node_teardown": False},
     }
@@ -160,4 +162,6 @@ def scenario_classes(scn):
         labels.append("has_failure")
     if any(j["cancel"] and j["blocked_by"] for j in scn["jobs"]):
         labels.append("has_flagged_dependent")
+    if not scn.get("dsub", True):
+        labels.append("no_distributed_submitter")
     return labels
